@@ -1046,11 +1046,17 @@ class Connection(ExportImport):
         """Commit all changes made in savepoints and begin 2-phase commit
         """
         src = self._savepoint_storage
+        oids = sorted(src.index.keys())
+        # Find the blob records while self._storage is still the savepoint
+        # storage: making the ghost resolves persistent references among
+        # the constructor arguments, which for imported objects exist
+        # only there yet.
+        blobs = set(oid for oid in oids if isinstance(
+            self._reader.getGhost(src.load(oid)[0]), Blob))
         self._storage = self._normal_storage
         self._savepoint_storage = None
         try:
             self._log.debug("Committing savepoints of size %s", src.getSize())
-            oids = sorted(src.index.keys())
 
             # Copy invalidating and creating info from temporary storage:
             self._modified.extend(oids)
@@ -1063,7 +1069,7 @@ class Connection(ExportImport):
                     self._cache.update_object_size_estimation(
                         obj._p_oid, len(data))
                     obj._p_estimated_size = len(data)
-                if isinstance(self._reader.getGhost(data), Blob):
+                if oid in blobs:
                     blobfilename = src.loadBlob(oid, serial)
                     self._storage.storeBlob(
                         oid, serial, data, blobfilename,
